@@ -742,12 +742,16 @@ def pick_size(rng, tier_big):
 # ------------------------------------------------------------------ cases
 def run_ds_case(ck, case, use_model):
     """op 'ds': list of hand-built datasets; collapse/expand each, concat all"""
+    import numpy as np
     dss = [build_ds(d) for d in case["list"]]
-    valid = not any(d.get("malformed") for d in case["list"])
+    # validity is decided by the oracle (explicit loop), not by the generator's flag
+    dvalid = [is_valid(np.array(d["pairs"], dtype=int).reshape(2, -1), d["n"][d["groups"][0]], d["n"][d["groups"][1]])
+              and len(d["pairs"][0]) > 0 for d in case["list"]]
+    valid = all(dvalid)
     n0 = len(case["list"][0]["pairs"][0])
     for i, (d, ds) in enumerate(zip(case["list"], dss)):
         sub = {"op": "ds", "list": [d], "alias": None, "collapser": case.get("collapser", False)}
-        check_dataset(ck, ds, sub, not d.get("malformed"), use_model, tag=f"[{i}] ", custom=case.get("collapser", False))
+        check_dataset(ck, ds, sub, dvalid[i], use_model, tag=f"[{i}] ", custom=case.get("collapser", False))
     cc = None
     if valid or case.get("alias") is not None:
         if all(len(d["pairs"][0]) for d in case["list"]):
